@@ -169,14 +169,13 @@ func c17Gen(n int) []*c17Dir {
 // c17World is one scratch directory:
 //
 //	<scratch>/{f,index.html,d/f,d/c17NAME-*,c17NAME-*}             secrets (d has no index.html)
-//	<scratch>/p2/{same}                                            secrets
-//	<scratch>/p2/p1/{same}                                         secrets
-//	<scratch>/p2/p1/outside/{secret.txt,f,index.html,d/...,c17NAME-*}
-//	<scratch>/p2/p1/root-evil/{f,index.html,d/...,l,c17NAME-*}
-//	<scratch>/p2/p1/ROOT/{f,index.html,d/...,c17NAME-*}
-//	<scratch>/p2/p1/rl -> root
-//	<scratch>/p2/p1/root/        the served root, rebuilt for every layout
-//	<scratch>/p2/p1/root/zin/{t.txt,f,index.html,hop -> ../../outside}   fixed inside furniture
+//	<scratch>/p1/{same}                                         secrets
+//	<scratch>/p1/outside/{secret.txt,f,index.html,d/...,c17NAME-*}
+//	<scratch>/p1/root-evil/{f,index.html,d/...,l,c17NAME-*}
+//	<scratch>/p1/ROOT/{f,index.html,d/...,c17NAME-*}
+//	<scratch>/p1/rl -> root
+//	<scratch>/p1/root/        the served root, rebuilt for every layout
+//	<scratch>/p1/root/zin/{t.txt,f,index.html,hop -> ../../outside}   fixed inside furniture
 type c17World struct {
 	scratch, p1, root, outside, evil, rl string
 	nsecret                              int
@@ -212,14 +211,13 @@ func c17NewWorld() *c17World {
 	s, err = filepath.EvalSymlinks(s)
 	c17Must(err)
 	w := &c17World{scratch: s}
-	w.p1 = filepath.Join(s, "p2", "p1")
+	w.p1 = filepath.Join(s, "p1")
 	w.root = filepath.Join(w.p1, "root")
 	w.outside = filepath.Join(w.p1, "outside")
 	w.evil = filepath.Join(w.p1, "root-evil")
 	w.rl = filepath.Join(w.p1, "rl")
 	c17Must(os.MkdirAll(w.p1, 0o755))
 	w.secretDir(s)
-	w.secretDir(filepath.Join(s, "p2"))
 	w.secretDir(w.p1)
 	c17Must(os.MkdirAll(w.outside, 0o755))
 	w.secretDir(w.outside)
@@ -496,7 +494,10 @@ func (r *c17Rec) Write(b []byte) (int, error) {
 	return r.buf.Write(b)
 }
 func (r *c17Rec) reset() {
-	r.h = http.Header{}
+	if r.h == nil {
+		r.h = http.Header{}
+	}
+	clear(r.h)
 	r.code, r.wrote = 0, false
 	r.buf.Reset()
 }
@@ -835,7 +836,8 @@ type c17PreReq struct {
 }
 
 // c17Configs: all = mount prefix x listing; otherwise each prefix with one
-// listing setting (alternating), used for the longest request paths.
+// listing setting (alternating).  The sweep uses the reduced set (the code
+// under test has no interplay between prefix and listing).
 func c17Configs(all bool) []c17Cfg {
 	var cfgs []c17Cfg
 	for i, pre := range []string{"", "/s", "/s/", "/static/x"} {
@@ -919,7 +921,7 @@ func TestVerif_C17(t *testing.T) {
 	passEntries, passSegs := []int{3, 1}, [][2]int{{0, 2}, {3, 3}}
 	sideSegs := 2 // glued / prefix-less request forms for paths of 1..sideSegs segments
 	if p.Thorough {
-		passEntries, passSegs = []int{5, 4, 3}, [][2]int{{0, 1}, {2, 2}, {3, 3}}
+		passEntries, passSegs = []int{4, 3}, [][2]int{{0, 2}, {3, 3}}
 	}
 	res.Bounds["pass_max_entries"] = passEntries
 	res.Bounds["pass_path_segments"] = passSegs
@@ -939,8 +941,9 @@ func TestVerif_C17(t *testing.T) {
 	}
 	var sets []*reqSet
 	var npaths, ncfgs, nlayouts []int
+	var ncases []int64
 	for i, sg := range passSegs {
-		rs := &reqSet{first: sg[0] == 0, paths: c17Paths(sg[0], sg[1]), cfgs: c17Configs(p.Thorough && sg[1] < 2), sendRoots: []string{"abs", "link"}}
+		rs := &reqSet{first: sg[0] == 0, paths: c17Paths(sg[0], sg[1]), cfgs: c17Configs(false), sendRoots: []string{"abs", "link"}}
 		if sg[1] < 3 {
 			rs.sendRoots = []string{"abs", "abs-slash", "link"}
 		}
@@ -958,6 +961,14 @@ func TestVerif_C17(t *testing.T) {
 			}
 		}
 		sets = append(sets, rs)
+		per := len(rs.sendRoots) * 2 * len(rs.send)
+		if rs.first {
+			per += len(rs.sendRoots) * len(c17FixedTargets)
+		}
+		for _, rq := range rs.reqs {
+			per += len(rq)
+		}
+		ncases = append(ncases, int64(per)*int64(len(rs.layouts)))
 		npaths = append(npaths, len(rs.paths))
 		ncfgs = append(ncfgs, len(rs.cfgs))
 		nlayouts = append(nlayouts, len(rs.layouts))
@@ -965,6 +976,7 @@ func TestVerif_C17(t *testing.T) {
 	res.Bounds["pass_paths"] = npaths
 	res.Bounds["pass_http_configurations"] = ncfgs
 	res.Bounds["pass_layouts"] = nlayouts
+	res.Bounds["pass_cases"] = ncases
 
 	w := c17NewWorld()
 	defer w.Close()
